@@ -1,6 +1,10 @@
 package main
 
-import "gosx/sym"
+import (
+	"os"
+
+	"gosx/sym"
+)
 
 func findProp(id string) *PropSpec {
 	for i := range props {
@@ -217,6 +221,27 @@ var props = []PropSpec{
 		Harnesses: []HarnessSpec{
 			{Func: "Check_Segmentation", Reach: []string{"all-delivered", "closed-after-undecodable-message"},
 				Bounds: "stream = template message + 2 data messages with symbolic values (+ optionally one undecodable message - bad version, length field shorter than the content, unknown template - at any of the 4 positions); every single cut point (quick), every pair of cut points (thorough) over the whole stream; a second connection afterwards"},
+		},
+	},
+	{
+		ID: "C20", Pkg: "github.com/vmware/go-ipfix/cmd/collector", Level: "other", NoNativeBuild: true,
+		Overlay: func() (map[string][]byte, error) {
+			b, err := os.ReadFile("/verif/overlays/c20/zz_verif_c20.go")
+			if err != nil {
+				return nil, err
+			}
+			return map[string][]byte{"/repo/cmd/collector/zz_verif_c20.go": b}, nil
+		},
+		Explanation: "PARTIAL: rendering excluded, HTTP stack bypassed. cmd/collector is package main and cannot be imported, so the harness file is injected into it with go's overlay mechanism (nothing is added to the repository). Decided by symbolic execution of the real addIPFIXMessage, flowRecordHandler and resetRecordHandler: from a store of EVERY length L (quick: L in {0,1,2,3,4094,4095,4096}; thorough: every L in 0..4096) one or two arrivals keep the store at min(L+k, 4096) entries consisting of the most recent ones in arrival order (the step form covers runs that exceed the cap any number of times); a records query returns the last min(count, L) entries in order in both formats for boundary counts and - with strconv.Atoi stubbed to return a SYMBOLIC integer - for every count on small stores; negative / unparsable counts and unknown formats are refused with 400, other methods with 405, reset empties the store. The rendered entry is produced by the host's fmt for CONCRETE field values only, so 'every field appears by name and value' is checked for one concrete record shape, not for all values. json.Marshal is a recorder (the slice handed to it is checked); handlers are called with a fake ResponseWriter. Counterexamples are replayed in the interpreter.",
+		Assumptions: []string{
+			"fmt rendering by the host's fmt for concrete operands (reflection and digit loops are not interpreted); json.Marshal, http.Error and http.Header.Set/Del are recorders/plain models",
+			"the HTTP server, signal handling and the collecting process wiring of run() are not executed",
+		},
+		Harnesses: []HarnessSpec{
+			{Func: "Check_Arrival", NoNative: true, Reach: []string{"arrived", "full-window"}, Tune: func(c *sym.Config, th bool) { c.InstrBudget = 50_000_000 }, Bounds: "store length L: quick {0,1,2,3,4094,4095,4096}, thorough every L in 0..4096; 1..2 arrivals"},
+			{Func: "Check_Query", NoNative: true, Reach: []string{"json", "text", "refused"}, Tune: func(c *sym.Config, th bool) { c.InstrBudget = 50_000_000 }, Bounds: "same L; count in {absent,0,1,2,L-1,L,L+1,5000,-1,abc} x format in {absent,json,text,xml}"},
+			{Func: "Check_QuerySymbolic", NoNative: true, Reach: []string{"answered", "refused"}, Bounds: "L in 0..6, count a symbolic 64-bit integer"},
+			{Func: "Check_Methods", NoNative: true, Reach: []string{"methods", "reset"}, Bounds: "POST/DELETE /records, GET/POST /reset on stores of 0, 3, 4096 entries"},
 		},
 	},
 }
